@@ -26,8 +26,8 @@ RULES = [
  # ---- builder (runs before any input)
  (r"BuildFormatter>::build\|unwrap\|", "typestate builder: build() exists only for WithReconstructor, reached only through lexer()/parser()/reconstructor(), each of which stores Some; runs before any input is read"),
  # ---- lang
- (r"FormattingData as .*From<\(&str, bool\)>>::from\|sub\|", "trim_start() returns a suffix of the same string, so its length is <= the original length"),
- (r"lang::(RawToken|Token)<'_> as lang::TokenData>::get_(content|leading_whitespace)\|index\|", "ws_len-valid: ws_len is the lexer's count_leading_whitespace of this token's text (bytes <= 0x20 or whole U+3000), a char boundary <= len; set_content re-uses the same prefix (Token::set_content asserts in debug)"),
+ (r"FormattingData as .*From<\(&str, bool\)>>::from\|sub\||FormattingData as core::convert::From.*::from.*\|sub\|", "trim_start() returns a suffix of the same string, so its length is <= the original length"),
+ (r"lang::(RawToken|Token)(<'_>)? as lang::TokenData>::get_(content|leading_whitespace)\|index\|", "ws_len-valid: ws_len is the lexer's count_leading_whitespace of this token's text (bytes <= 0x20 or whole U+3000), a char boundary <= len; set_content re-uses the same prefix (Token::set_content asserts in debug)"),
  (r"lang::LogicalLine::void_and_drain\|range\|", "drain(0..) is valid for every Vec"),
  (r"ReconstructionSettings::new\|capacity\|", "repeat count is a u8 (<= 255) times a 1-byte string"),
  # ---- formatter
